@@ -253,7 +253,10 @@ CLAIMS = {
              "Text node (all Chars but '<' '&', no ']]>'), a CDATA section (all Chars, no ']]>') and a comment (= production [15] of the "
              "Recommendation as a recogniser, = all Chars, no '--', no '-' at the end; by induction over the fuel-driven many0 loop), a PI target (a Name that is not xml in "
              "any letter case) and PI data (all Chars, no '?>'); effect and frame of a successful data edit (the node holds the "
-             "validated outcome, no other node of the document or of a detached tree changes identity, kind or data), "
+             "validated outcome, no other node of the document or of a detached tree changes identity, kind or data); the depth clause "
+             "(depth_bounded_after_any_history, parsed_document_stays_within_depth: after ANY history of the 25 operations no tree nests "
+             "elements deeper than MAX_ELEMENT_DEPTH, the depth the parser reads back - by an invariant of the transition relation, "
+             "Lemmas/DomHeight), "
              "every data edit that succeeds stored data that passed the predicate for the node's kind evaluated "
              "on the OUTCOME of the edit (so sequences arising from combining harmless pieces are refused), a refused edit changes "
              "nothing. Monitor after every step: to_string() is accepted by from_raw with nothing left and its dump equals the DOM's "
